@@ -92,9 +92,13 @@ int64_t evaluate_bitwise_binary(const std::string &op, int64_t left,
     } else if (op == "^") {
         return left ^ right;
     } else if (op == "<<") {
-        return left << right;
+        // the count is taken modulo 64 (what the x86-64 shift instructions
+        // do): a count outside 0..63 and a left shift of a negative value are
+        // undefined behaviour in C++, so shift the unsigned representation
+        return static_cast<int64_t>(static_cast<uint64_t>(left)
+                                    << (static_cast<uint64_t>(right) & 63));
     } else if (op == ">>") {
-        return left >> right;
+        return left >> (static_cast<uint64_t>(right) & 63);
     }
     throw std::runtime_error("Unknown bitwise operator: " + op);
 }
